@@ -88,4 +88,5 @@ Proof.
   all: try (intros i Hi; destruct i as [|[|[|i]]]; try lia; reflexivity).
   all: try (intros l i Hl; lia).
   all: try (intros l Hl; lia).
+  all: destruct i as [|[|i]]; try lia; try reflexivity; simpl; lia.
 Qed.
